@@ -26,6 +26,8 @@ compress_pmappings.py):
        ``decompress_data.setdefault(start_index, decompress)`` (an empty table shadows the table
        that follows it) -> CAUGHT (2640, only histories with an empty table before a used one)
   Me decompress walks the sub-tables forwards instead of reversed -> CAUGHT (13230)
+  (counts from the first quick space of 17004 histories; Mc re-run on the final, smaller quick
+  space of 11585 histories: still CAUGHT, 1907 histories)
 """
 
 from __future__ import annotations
